@@ -601,9 +601,10 @@ STATE_CHANGING = ('CreateInstance', 'DeleteInstance', 'ModifyInstance', 'CreateC
                   'OpenEnumerateInstances', 'OpenEnumerateInstancePaths', 'CloseEnumeration', 'InvokeMethod')
 
 
-def http_case(sizes, seed, dflt, ops, fault, i, ctype=None):
+def http_case(sizes, seed, dflt, ops, fault, i, ctype=None, creds=None, logging_on=False):
     return {'kind': 'http', 'sizes': sizes, 'seed': seed, 'dflt': dflt, 'ops': ops[:i + 1], 'all_ops': ops,
-            'fault': {str(k): v for k, v in fault.items()}, 'index': i, 'content_type': ctype}
+            'fault': {str(k): v for k, v in fault.items()}, 'index': i, 'content_type': ctype, 'creds': creds,
+            'logging': logging_on}
 
 
 def check_http_states(run, states, case):
@@ -649,11 +650,15 @@ def run_http(run, n, out):
         if rng.random() < 0.85:
             cand = [i for i, o in enumerate(ops) if o['op'] in STATE_CHANGING] or list(range(len(ops)))
             fault = {rng.choice(cand): rng.choice(['drop', 'drop', 'truncate'])}
-        steps, states = O.run_http_history(sizes, seed, ops, dflt, fault, ctype)
+        # credentials checked by the server (HTTP Basic) and logging switched on for the connection, in all 4 combinations
+        creds = rng.choice([None, ['user', 'pass:wörd'], ['adm in', 'x']])
+        logging_on = rng.random() < 0.5
+        steps, states = O.run_http_history(sizes, seed, ops, dflt, fault, ctype, creds, logging_on)
         for i, st in enumerate(steps):
-            out.append((st, dflt, st.host, http_case(sizes, seed, dflt, ops, fault, i, ctype), False))
-        check_http_states(run, states, http_case(sizes, seed, dflt, ops, fault, len(ops) - 1, ctype))
+            out.append((st, dflt, st.host, http_case(sizes, seed, dflt, ops, fault, i, ctype, creds, logging_on), False))
+        check_http_states(run, states, http_case(sizes, seed, dflt, ops, fault, len(ops) - 1, ctype, creds, logging_on))
         run.count('http:content_type:' + ctype)
+        run.count('http:creds=%s,logging=%s' % (bool(creds), logging_on))
         run.count('http:faulted' if any(r.get('fault') for st in steps for r in st.exchanges) else 'http:clean')
 
 
@@ -822,7 +827,7 @@ def replay(payload):
         fault = {int(k): v for k, v in case['fault'].items()}
         ops = case.get('all_ops', case['ops'])
         steps, states = O.run_http_history(case['sizes'], case['seed'], ops, case['dflt'], fault,
-                                           case.get('content_type'))
+                                           case.get('content_type'), case.get('creds'), case.get('logging', False))
         for i, st in enumerate(steps):
             oracle_step(r, st, case['dflt'], dict(case, index=i, ops=ops[:i + 1]), False)
         check_http_states(r, states, case)
